@@ -125,7 +125,7 @@ func RunC11(r *core.Run) {
 	r.Rule = "case = (parser, configuration, text x, junk prefix of length k, cut schedule); x is parsed at offset 0 and junk||x at offset k along the same schedule shifted by k; verdicts must be equal, returned offsets and every reported field must differ by exactly k (a never-set (0,0) field stays (0,0)), numbers/types/flags/counts must be equal; k in {1,2,3,13,255,256,257,4096,60000,65535-|x|,65534-|x|} and random; non-trivial = a definitive verdict was reached and compared; distinct by hash(x,k,configuration). Relocation of parsed URIs is part of C18 and repeated here in a small stage"
 	r.Assume = []string{"texts end at or before the 65,535-byte addressing limit"}
 	type wk struct{ big []byte }
-	n := r.Pick(600000, 10000000)
+	n := r.Pick(600000, 40000000)
 	r.Stage("long-inputs", n, func(w *core.Worker, idx int64) {
 		rr := core.NewRand(r.Seed, 0xC11, 1, uint64(idx))
 		p := Parsers[rr.Intn(len(Parsers))]
@@ -200,7 +200,7 @@ func RunC11(r *core.Run) {
 		st.Space = es.Desc() + fmt.Sprintf(" wrapped in %q/%q, parsers %v, k in {1,3}, one-shot and every prefix", f.Prefixes, f.Suffixes, f.Parsers)
 	}
 	// name-addr values whose parameters carry errors (ParamErr / ErrOffs are positional too)
-	r.Stage("name-addr-param-errors", r.Pick(60000, 1500000), func(w *core.Worker, idx int64) {
+	r.Stage("name-addr-param-errors", r.Pick(60000, 6000000), func(w *core.Worker, idx int64) {
 		rr := core.NewRand(r.Seed, 0xC11, 4, uint64(idx))
 		digits := func(n int) string { return string(rr.Bytes(n, []byte("0123456789"))) }
 		bad := []string{";q=" + digits(rr.Range(19, 30)), ";q=1.5", ";q=0.12345", ";q=2", ";q=" + digits(21) + ".5", ";q=0." + digits(25), ";expires=" + digits(rr.Range(18, 40)),
@@ -224,7 +224,7 @@ func RunC11(r *core.Run) {
 		}
 	})
 	// relocation of parsed URIs
-	r.Stage("uri-relocation", r.Pick(200000, 3000000), func(w *core.Worker, idx int64) {
+	r.Stage("uri-relocation", r.Pick(200000, 12000000), func(w *core.Worker, idx int64) {
 		rr := core.NewRand(r.Seed, 0xC11, 3, uint64(idx))
 		u := []byte(gen.URI(rr).String())
 		switch rr.Intn(6) {
